@@ -25,9 +25,9 @@ pub fn gen(tier: &str, seed: u64, emit: &mut dyn FnMut(String)) {
         emit(format!("P12 {}", hex(&p)));
     }
     if tier == "thorough" {
-        // every (b1,b2,b3) triple with a boundary adaptation_field_length
-        for b3 in 0..=255u8 { for b1 in 0..=255u8 { for b2 in 0..=255u8 {
-            let b4 = *rng.pick(&[0u8, 1, 2, 181, 182, 183, 184, 255]);
+        // every (b1,b3) pair x every boundary adaptation_field_length, the low PID byte random
+        for b3 in 0..=255u8 { for b1 in 0..=255u8 { for b4 in [0u8, 1, 2, 181, 182, 183, 184, 255] {
+            let b2 = rng.byte();
             emit(format!("P12 {}", hex(&mk(&mut rng, b1, b2, b3, b4))));
         } } }
     }
